@@ -18,7 +18,10 @@ records exist when retry_attempts <= 0.  Each transition function is executed fr
                        the clause that failed with ignore_exc before /repo 450311b (_set_many swallowed the error); the client
                        table is untouched (frame clause, also for _safely_run_func)
   _retry_dead          nothing changes unless a check is due; a due check is recorded (last check time = now); only servers
-                       dead for longer than dead_timeout become candidates; no server leaves rotation
+                       dead for longer than dead_timeout become candidates; no server leaves rotation; never raises: the
+                       candidates come from strictly increasing positions of the dead table's enumeration, hence are pairwise
+                       distinct, and those not yet re-added are still recorded dead - so `del self._dead_clients[server]` cannot
+                       miss (the KeyError exit is infeasible under the loop invariant)
   every single-key method (with _get_client / _run_cmd inlined): a no-contact raise is only "all servers down", never with
                        ignore_exc; the routed node is in rotation (rerouting to the remaining servers)
 Window bounds (<= 2 contacts per retry_timeout, <= retry_attempts + 2 per dead_timeout, over runs of consecutive failing
@@ -31,7 +34,6 @@ TRUSTED = ["A-dict (membership, pop/KeyError, enumeration of a dict's keys)", "R
            "node names of normalised server specs are distinct (injective _make_client_key)", "monotone clock (time.time)"]
 ASSUMPTIONS = ["retry_timeout < dead_timeout", "inner client calls do not touch the HashClient", "reading of 'a failing server': runs of consecutive failing contacts"]
 NOT_COVERED = ["timing lemmas L1-L3 (window bounds, recovery) as machine-checked history lemmas: covered by the per-transition contracts and the bounded replay only",
-               "_retry_dead never raising (needs pairwise distinctness of the candidate list: A-dict enumeration argument undecided by the solvers)",
                "the list of failed keys returned by _safely_run_set_many (key sets are opaque: A-filter)", "non-key-addressed operations (flush_all, stats, close, quit)"]
 BUDGET = {"quick": 30, "thorough": 120}
 REPLAY_UNDECIDED = True
